@@ -407,6 +407,12 @@ class SyncWorld(World):
         self._install_handlers()
 
     def close(self):
+        # the service task swallows every exception (incl. GreenletExit) and loops: stop it
+        # through its own event before unwinding the other tasks
+        ev = getattr(self.server, 'service_task_event', None)
+        if ev is not None:
+            ev.set()
+            self.hub.run()
         self.hub.kill_all()
         self._drv._async.clear()
         self._drv._async.update(self._saved)
